@@ -16,7 +16,7 @@ CLAIMS = {
     },
     'C18': {
         'text': 'Static: necessary condition for consistency under concurrency: every store removal that precedes its queue removal lies with it in one queue critical '
-                'section (must-held guard), and victim loops tolerate orphans. Value correctness over interleavings is not decided.',
+                'section (must-held guard), victim loops tolerate orphans, presence tests that steer an async store are made under the queue lock, no lookup path (tests answering freely) drops a queue slot while the entry stays stored, clear empties both structures, and no update sits inside debug_assert!. Value correctness over interleavings is not decided.',
         'design_ref': 'DESIGN.md section 5 C18', 'note': TRUST, 'technique': 'must-held guard dataflow + store/queue effect pairing over MIR',
     },
     'C20': {
@@ -30,7 +30,7 @@ CLAIMS.update({
     'C04': {
         'text': 'Static: overflow test agrees with its placement (len > limit after insertion / len >= limit before), lies on every storing path; under the overflow oracle every '
                 'flavour x policy path removes at most one entry and removes it from store and queue together; stores leave key in both; random victim is a queue position; '
-                're-stored keys are de-duplicated. Each run also plants an off-by-one in the facts of every overflow test and requires a report. The numeric bound over histories is the paper induction over these premises.',
+                're-stored keys are de-duplicated; the sync global test counts the queue (what every eviction shortens); the index of every positional queue removal comes from a forward equality search of the same queue; no cache update sits inside debug_assert!; EvictionPolicy == is variant equality. Each run also plants an off-by-one in the facts of every overflow test and requires a report. The numeric bound over histories is the paper induction over these premises.',
         'design_ref': 'DESIGN.md section 5 C04', 'note': TRUST, 'technique': 'configuration-specialised path-sensitive effect totals over MIR + comparison normal forms + dominance',
     },
     'C05': {
@@ -45,7 +45,7 @@ CLAIMS.update({
     },
     'C07': {
         'text': 'Static: one queue orientation for store/touch/victim in all flavours and paths; LRU hit re-queues the key on every path when a bound is configured, FIFO hit touches nothing; '
-                'victim loops skip orphans. Victim identity over histories is the paper induction.',
+                'a store that has written its entry queues its key before victims are chosen; positional removals use an index from a forward equality search; victim loops skip orphans; no update inside debug_assert!. Victim identity over histories is the paper induction.',
         'design_ref': 'DESIGN.md section 5 C07', 'note': TRUST, 'technique': 'per-configuration effect table on hit paths + orientation table agreement',
     },
     'C08': {
@@ -99,7 +99,7 @@ CLAIMS.update({
     },
     'C13': {
         'text': 'Static: conditional callbacks remove exactly the predicate-selected keys from store and queue together and touch only their own statics; the registry routes the predicate to the '
-                'named cache / gives each cache its own name.',
+                'named cache / gives each cache its own name; queue removals in callbacks use an index from a forward equality search and none is written inside debug_assert!.',
         'design_ref': 'DESIGN.md section 5 C13', 'note': TRUST, 'technique': 'expression-tree shape rules on generated callbacks and registry routing',
     },
     'C14': {
